@@ -169,6 +169,181 @@ def extra_checks(tier, seed):
         out.append(('hierarchical_may', True, detail, {}))
     out.append(async_flat_stream(tier, seed))
     out.append(async_hsm_stream(tier, seed))
+    out.append(may_from_callbacks_stream(tier, seed))
+    return out
+
+
+# ------------------------------------------------------------------ may_<event> asked from inside callbacks
+def _probe_answers(world, items_from):
+    return [[it[0], it[1]] for it in world.items[items_from:]]
+
+
+def impl_may_probe(case):
+    """history on a hierarchical machine some of whose callbacks (action code 2) ask may_trigger(e) for every event
+    while the machine is in the middle of processing (a naming scope may be active, the state may already have
+    changed); every probe is repeated on a FRESH machine of the same definition whose model is placed in the state
+    the probing callback saw: same answers, same callbacks evaluated in the same order (top-level may_ is tied to
+    the Coq engine by the main streams).  Returns [number of probes, first mismatch or None]."""
+    import asyncio
+    import hsm
+    cname = case.get('cls', 'HierarchicalMachine')
+    is_async = 'Async' in cname
+    events = ['e%d' % e for e in range(case['nevents'])]
+
+    def build(probing):
+        world = hsm.World(case['env'], case['machine']['send'])
+        world.state_of = hsm.state_forest
+        st = dict(in_probe=not probing, probes=[], pending=[])
+        holder = {}
+
+        def ask_sync():
+            out = []
+            for ev in events:
+                n0 = len(world.items)
+                try:
+                    r = [0, bool(holder['model'].may_trigger(ev))]
+                except BaseException as ex:  # noqa
+                    r = [1, flat.classify_exc(ex)]
+                out.append([ev, r, _probe_answers(world, n0)])
+            return out
+
+        async def ask_async():
+            out = []
+            for ev in events:
+                n0 = len(world.items)
+                try:
+                    r = [0, bool(await holder['model'].may_trigger(ev))]
+                except BaseException as ex:  # noqa
+                    r = [1, flat.classify_exc(ex)]
+                out.append([ev, r, _probe_answers(world, n0)])
+            return out
+        if not is_async:
+            def perform(a):
+                if a[0] == 2 and not st['in_probe']:
+                    st['in_probe'] = True
+                    try:
+                        snap = copy.deepcopy(getattr(holder['model'], 'state'))
+                        st['probes'].append((snap, ask_sync()))
+                    finally:
+                        st['in_probe'] = False
+            world.perform = perform
+        else:
+            world.perform = lambda a: st['pending'].append(a)
+            base = world.recorder
+
+            def arecorder(slot, cb, model_of_call=None):
+                inner = base(slot, cb, model_of_call)
+
+                async def rec(*args, **kwargs):
+                    for _ in range(cb % 2):
+                        await asyncio.sleep(0)
+                    del st['pending'][:]
+                    try:
+                        r = inner(*args, **kwargs)
+                    finally:
+                        todo = list(st['pending'])
+                        del st['pending'][:]
+                    for a in todo:
+                        if a[0] == 2 and not st['in_probe']:
+                            st['in_probe'] = True
+                            try:
+                                snap = copy.deepcopy(getattr(holder['model'], 'state'))
+                                st['probes'].append((snap, await ask_async()))
+                            finally:
+                                st['in_probe'] = False
+                    return r
+                rec.__name__ = inner.__name__
+                return rec
+            world.recorder = arecorder
+        machine, model = hsm.build_hsm(case, world, flat.get_class(cname), extra_kwargs=flat.class_kwargs(cname))
+        world.model_ids[id(model)] = 0
+        world.current_model = model
+        holder['model'] = model
+        return world, st, model, ask_sync, ask_async
+    world, st, model, _, _ = build(True)
+    if not is_async:
+        for k, e, a in case['history']:
+            tok = flat.Token(a)
+            try:
+                model.trigger('e%d' % e, tok, k=tok)
+            except BaseException:  # noqa
+                pass
+    else:
+        async def run():
+            for k, e, a in case['history']:
+                tok = flat.Token(a)
+                try:
+                    await model.trigger('e%d' % e, tok, k=tok)
+                except BaseException:  # noqa
+                    pass
+        asyncio.run(run())
+    probes = st['probes']
+    first = None
+    for snap, inside in probes:
+        w2, st2, m2, ask_sync, ask_async = build(False)
+        setattr(m2, 'state', copy.deepcopy(snap))
+        fresh = ask_sync() if not is_async else asyncio.run(ask_async())
+        if fresh != inside and first is None:
+            first = dict(state=hsm.forest_of_value(snap) if hasattr(hsm, 'forest_of_value') else repr(snap),
+                         asked_from_a_callback=inside, asked_on_a_fresh_machine_in_that_state=fresh)
+    return [len(probes), first]
+
+
+def may_from_callbacks_stream(tier, seed):
+    import hsm
+    import framework as F
+    n = 240 if tier == 'quick' else 5000
+    cases = []
+    for i in range(n):
+        rng = random.Random('C12p-%d-%d' % (seed, i))
+        c = hsm.gen_case(rng, hist_len=rng.randint(2, 4), p_parallel=0.4, single_scope=(i % 4 == 3), p_sep=0.15)
+        if i % 5 in (1, 4):
+            hsm.trim_lists(c)       # asyncio classes: one callback per stage, nothing runs beside the probing callback
+        allcb = sorted({it for it in _all_cbs(c['machine'])})
+        bycb = {k: (v[0], None, []) for k, v in c['env']['bycb'].items()}
+        for cb in rng.sample(allcb, min(len(allcb), rng.randint(2, 5))):
+            ret = bycb.get(cb, (c['env']['default'], None, []))[0]
+            bycb[cb] = (ret, None, [(2, 0)])
+        c['env'] = dict(default=c['env']['default'], bypos={}, bycb=bycb)
+        c['nevents'] = 1 + max([e for e, _ in c['machine']['events']] +
+                               [e for _, d in hsm.all_defs(c['machine']) for e, _ in d['events']] + [0])
+        c['cls'] = ['HierarchicalMachine', 'HierarchicalAsyncMachine', 'LockedHierarchicalMachine',
+                    'HierarchicalGraphMachine', 'HierarchicalAsyncGraphMachine'][i % 5]
+        cases.append(c)
+    io = F.run_impl('c12', 'impl_may_probe', cases)
+    probes = 0
+    bad = None
+    for c, r in zip(cases, io):
+        if isinstance(r, dict):
+            bad = bad or (c, r)
+            continue
+        probes += r[0]
+        if r[1] is not None:
+            bad = bad or (c, r[1])
+    detail = dict(cases=len(cases), probes=probes, disagreements=0 if bad is None else 1)
+    if bad:
+        c, r = bad
+        return ('may_asked_from_callbacks', False, detail,
+                dict(kind='oracle', stream='may_<event> asked from inside a callback vs on a fresh machine placed in the same state',
+                     case=c, impl_obs=r, failing_clause='may_<event> depends on more than the machine definition and the model\'s state'))
+    return ('may_asked_from_callbacks', True, detail, {})
+
+
+def _all_cbs(m):
+    import hsm
+    out = []
+    for key in ('prepare_event', 'before_sc', 'after_sc', 'finalize'):
+        out += m[key]
+
+    def ts_cbs(ts):
+        for t in ts:
+            out.extend(t['prepare'] + [c for c, _ in t['conds']] + t['before'] + t['after'])
+    for _, ts in m['events']:
+        ts_cbs(ts)
+    for _, d in hsm.all_defs(m):
+        out.extend(d['enter'] + d['exit'])
+        for _, ts in d['events']:
+            ts_cbs(ts)
     return out
 
 
